@@ -186,6 +186,9 @@ func (s *seekableDecryptingReader) loadSegment(j int64) error {
 		nonce[tinkNoncePrefixSize+4] = 1
 	}
 
+	// The buffered segment's memory is reused for the output, so from here on
+	// it no longer holds segment segIndex, whether or not decryption succeeds.
+	s.segIndex = -1
 	plaintext, err := s.cipher.Open(s.plaintext[:0], nonce, segment, nil)
 	if err != nil {
 		return fmt.Errorf("segment %d decryption failed: %w", j, err)
